@@ -127,16 +127,22 @@ def expr_vars(e, acc=None) -> set:
 _FUNCS: dict = {}
 
 
-def mkfunc(name: str, args: list[str], body, stochastic: bool = False, ints: bool = True, stacked: bool = False):
+def _sig(args, kwonly):
+    kw = [a for a in args if a in (kwonly or [])]
+    pos = [a for a in args if a not in kw]
+    return ", ".join(pos + (["*"] + kw if kw else []))
+
+
+def mkfunc(name: str, args: list[str], body, stochastic: bool = False, ints: bool = True, stacked: bool = False, kwonly=None):
     """The same source text gives the same function *object* within a process - as for a user who defines the model
     functions once at module level and uses them in several specifications (what a cache keyed on function objects
     inside the library would see)."""
     I = impl()
-    code = f"def {name}({', '.join(args)}):\n    return {src(body, ints)}\n"
+    code = f"def {name}({_sig(args, kwonly)}):\n    return {src(body, ints)}\n"
     if stacked and isinstance(body, list) and body and body[0] == "add":
         # the same scalar function written with a reduction over a small stacked vector: legal for lcm (model functions are
         # evaluated on scalars under vmap), but not broadcast-safe - calling it on whole columns gives one number
-        code = f"def {name}({', '.join(args)}):\n    return jnp.array([{src(body[1], ints)}, {src(body[2], ints)}]).sum()\n"
+        code = f"def {name}({_sig(args, kwonly)}):\n    return jnp.array([{src(body[1], ints)}, {src(body[2], ints)}]).sum()\n"
     if (code, stochastic) in _FUNCS:
         return _FUNCS[(code, stochastic)]
     f = _mkfunc(I, name, code, stochastic)
@@ -204,7 +210,7 @@ def build_model(mj: dict):
     impl()
     from lcm import Model
 
-    made = {f["name"]: mkfunc(f["name"], f["args"], f["body"], f.get("stochastic", False), f.get("ints", True), f.get("stacked", False))
+    made = {f["name"]: mkfunc(f["name"], f["args"], f["body"], f.get("stochastic", False), f.get("ints", True), f.get("stacked", False), f.get("kwonly"))
             for f in mj["functions"] if not f.get("same_as")}
     for f in mj["functions"]:
         if f.get("affine_wrap"):
